@@ -137,6 +137,12 @@ func (t *Topic) procPresReq(fromUserID, what string, wantReply bool) string {
 		what = ""
 	default:
 		// All other notifications are not processed here
+		if t.cat == types.TopicCatMe && (what == "ua" || what == "upd") {
+			if psd, ok := t.perSubs[fromUserID]; ok && !psd.enabled {
+				// The contact is muted (no 'P' permission): its updates are not wanted either.
+				return ""
+			}
+		}
 		return what
 	}
 
